@@ -11,7 +11,7 @@ import (
 func init() {
 	register(&propDef{
 		ID:       "C06",
-		Explain:  "Decided (the at-most-once / never-after-removal / same-key clauses; the match relation itself is NOT decided): in (*branch).update every Client.Update invoke is skipped for a client already in the per-notification set and is followed by the insertion of that client into the set; subscribe.UpdateNotification hands a non-nil set to every UpdateOnce call, the same set for all updates and deletes of one notification, and Server.Update makes exactly one UpdateNotification call per leaf; the registry's clients/children maps are only touched under Match.mu (writes under the write lock), so when the remove function returns no update is in flight; the remove closure calls removeQuery with the very query/client values given to addQuery and the retained query slice is not aliased by later appends (append-ownership rule on subscribe/match); removeQuery prunes a child only when the recursive call reported it empty and reports a node empty only when it has neither clients nor children; the three index constructions (subscription, snapshot, update) all go through path.ToStrings/CompletePath.",
+		Explain:  "Decided (the at-most-once / never-after-removal / same-key clauses; the match relation itself is NOT decided): in (*branch).update every Client.Update invoke is skipped for a client already in the per-notification set and is followed by the insertion of that client into the set; subscribe.UpdateNotification hands a non-nil set to every UpdateOnce call, the same set for all updates and deletes of one notification, and Server.Update makes exactly one UpdateNotification call per leaf; the registry's clients/children maps are only touched under Match.mu (writes under the write lock), so when the remove function returns no update is in flight; the remove closure calls removeQuery with the very query/client values given to addQuery and the retained query slice is not aliased by later appends (append-ownership rule on subscribe/match); removeQuery prunes a child only when the recursive call reported it empty and reports a node empty only when it has neither clients nor children; the three index constructions (subscription, snapshot, update) all go through path.ToStrings/CompletePath. Also decided: every recursive call of (*branch).update hands on the per-notification set; the composition of every index slice is fixed (registration: ToStrings(prefix,true) [origin] ToStrings(path,false); update: prefix parameter + ToStrings(path,false), the prefix built with ToStrings(prefix,true) at every caller of UpdateNotification).",
 		NotCover: "the match relation 'offered iff compatible on the common prefix' and its containment of ctree.Query's relation (a property of values flowing through the recursive descent)",
 		Run:      runC06,
 	})
